@@ -258,11 +258,12 @@ def toy2c_class():
 _cache: dict = {}
 
 
-def make_thermo(kind="toy1", params=None, TnFrac=0.6, tminFrac=0.6, tmaxFrac=1.6, rTol=1e-6, Tscale=None, key=None):
+def make_thermo(kind="toy1", params=None, TnFrac=0.6, tminFrac=0.6, tmaxFrac=1.6, rTol=1e-6, Tscale=None, key=None, guess_err=0.0):
     """Real WallGo.Thermodynamics on a toy model with both phases traced; Tn = T0 + TnFrac (Tc - T0).
-    Returns (thermo, model, info)."""
+    guess_err: relative error put on the broken-phase location handed to Thermodynamics (the docstring allows an approximate guess;
+    toy1/toy2 only).  Returns (thermo, model, info)."""
     params = dict(params or {})
-    ck = key or (kind, tuple(sorted(params.items())), TnFrac, tminFrac, tmaxFrac, rTol, Tscale)
+    ck = key or (kind, tuple(sorted(params.items())), TnFrac, tminFrac, tmaxFrac, rTol, Tscale, guess_err)
     if ck in _cache:
         return _cache[ck]
     WallGo = _wg()
@@ -287,7 +288,7 @@ def make_thermo(kind="toy1", params=None, TnFrac=0.6, tminFrac=0.6, tmaxFrac=1.6
     model.configureDerivatives(WallGo.VeffDerivativeSettings(temperatureVariationScale=float(Ts),
                                                              fieldValueVariationScale=float(fs)))
     if kind == "toy1":
-        low = Fields([float(ref.phiBroken(Tn))])
+        low = Fields([float(ref.phiBroken(Tn)) * (1 + guess_err)])
         high = Fields([0.0])
     else:
         def lab(phi, s):
@@ -295,7 +296,7 @@ def make_thermo(kind="toy1", params=None, TnFrac=0.6, tminFrac=0.6, tmaxFrac=1.6
             v[model.perm[0]] = model.signs[0] * phi + model.shift[model.perm[0]]
             v[model.perm[1]] = model.signs[1] * s + model.shift[model.perm[1]]
             return v
-        low = Fields(lab(float(ref.phiBroken(Tn)), 0.0))
+        low = Fields(lab(float(ref.phiBroken(Tn)) * (1 + guess_err), 0.0))
         high = Fields(lab(0.0, 0.0))
     th = Thermodynamics(model, Tn, low, high)
     th.freeEnergyHigh.disableAdaptiveInterpolation()
